@@ -92,6 +92,22 @@ CHECKS = {
          'read-back, what the source denotes, Sync and only-that-changed are separate named clauses; ExtractMC model-checks '
          'PutBackRestores / CutThenPutBack on small containers.',
          'TLA+ model + TLC trace validation of recorded executions; oracles ast / tokenize'),
+ 'C10': ('model_checking', '4-C10',
+         'Model checking of an explicit TLA+ specification of raw source edits (Raw/RawLaws with a flat-Python oracle defined '
+         'in TLA+ and cross-checked against ast.parse, exhaustive within MaxFlat<=4/MaxRepl<=2) plus trace validation by TLC of '
+         'every recorded put_src(reparse)/raw put/reparse() call against a whole-file ast.parse (text splice recomputed in '
+         'TLA+, 7 named clauses, spec-computed edit classes); genuine statement-local-reparse defects are recorded by '
+         '(clause, class) in known_findings.d/C10.json.',
+         'TLC model checking (RawMC) + TLC-generated exhaustive case table replayed into pfst (RawGen) + TLC trace validation '
+         'of corpus histories (RawTrace); oracle ast.parse/tokenize only'),
+ 'C11': ('model_checking', '4-C11',
+         'Explicit TLA+ model of the offset core (span trees, trivia splices, _offset head/tail rule table and walk as '
+         'composed by put_src(offset)) model-checked exhaustively for all trees <= 4 nodes (<= 5 restricted) on a 2x8 grid '
+         'against OnText and the three-way shift law; every renderable model instance and every token gap of the corpus x '
+         'trivia-preserving replacements is executed through the public API and judged by TLC against the same laws, with a '
+         'from-scratch CPython parse as oracle.',
+         'TLC model checking + two-way conformance: TLC-generated instances replayed into pfst, recorded executions '
+         'trace-validated by TLC (OffsetTrace)'),
 }
 
 NOT_YET = {}
